@@ -16,6 +16,7 @@ import (
 func TestAcks(t *testing.T) {
 	component(t, func(h *H) {
 		ackUnit(t, h)
+		ackReplyInsideTimeout(t, h)
 		ackSystem(t, h)
 		ackOffline(t, h)
 		ackRawPeer(t, h)
@@ -92,6 +93,41 @@ func ackUnit(t *testing.T, h *H) {
 				h.Violation("C03", "a callback whose reply did not arrive in time does not receive ErrAckTimeout", desc, fmt.Sprintf("invocations: %v", inv))
 			}
 		}
+	}
+}
+
+// the reply arrives exactly while the timer goroutine is inside the socket's timeout function (between its decision and
+// the callback): the decision is final, the reply is dropped
+func ackReplyInsideTimeout(t *testing.T, h *H) {
+	T := 100 * time.Millisecond
+	var inv []string
+	var mu sync.Mutex
+	synctest.Test(t, func(t *testing.T) {
+		var ah *sio.VerifAckHandler
+		cb := func(err error, v int) {
+			mu.Lock()
+			defer mu.Unlock()
+			if err != nil {
+				inv = append(inv, "timeout")
+			} else {
+				inv = append(inv, fmt.Sprintf("r%d", v))
+			}
+		}
+		var err error
+		ah, err = sio.VerifNewAckHandlerWithTimeout(cb, T, func() {
+			ah.Call(reflect.ValueOf(7))
+		})
+		if err != nil {
+			t.Fatal(err)
+		}
+		time.Sleep(3 * T)
+	})
+	h.Case("ack to=1 sched=t,r7", "inv="+strings.Join(inv, ","))
+	desc := "ack handler with timeout, reply arriving while the timer goroutine runs the socket's timeout function"
+	h.NonTrivial(desc)
+	h.Dist("ack.unit.insideTimeout")
+	if len(inv) != 1 || inv[0] != "timeout" {
+		h.Violation("C03", "a callback with a timeout is not invoked exactly once", desc, fmt.Sprintf("invocations: %v", inv))
 	}
 }
 
